@@ -207,6 +207,18 @@ Definition make_metas (shape : list Z) (gshape : option (Z * Z)) (yaxis : option
   '(lv, _) <- make_levels bs im ;;
   Ok (map (fun l => Meta ax (l_shape l) (l_tile l) ns) lv).
 
+(** save_cog_with_dask, blocksize not given:
+    [[data_chunks, max(1, max(data_chunks) // 2)]] (the [max(1, ..)] since fix 20f06be) *)
+Definition default_blocksize (chunks : Z * Z) : list blk :=
+  [BPair (fst chunks) (snd chunks); BInt (Z.max 1 (Z.max (fst chunks) (snd chunks) / 2))].
+
+(** _compress_tiles (since fix e9dac52): the source array (unpadded, rechunked to
+    the tile size) has [nblocks dim tile] blocks along an axis; a tile beyond
+    that is compressed from an empty block, i.e. consists of fill values only *)
+Definition nblocks (dim tile : Z) : Z := (dim + tile - 1) / tile.
+Definition has_source_block (src_shape tile : Z * Z) (y x : Z) : bool :=
+  (y <? nblocks (fst src_shape) (fst tile)) && (x <? nblocks (snd src_shape) (snd tile)).
+
 (** write order of save_cog_with_dask: one bag per (level, plane) in that
     nesting, the list of bags reversed ([_tiles[::-1]]), each bag in
     tidx(sample_idx) order; repartition / concat keep that order.  The plane
